@@ -8,6 +8,7 @@ import (
 	"go/token"
 	"os"
 	"path/filepath"
+	"regexp"
 	"runtime"
 	"sort"
 	"strconv"
@@ -238,11 +239,12 @@ func seqString(s []readOp) string {
 }
 
 type helloParser struct {
-	loops     [][]string         // normalised effects of the loops of the fixed part
-	prefix    []readOp           // reads before the extension switch
-	cases     map[int64][]readOp // extension id -> reads
-	fields    map[int64][]string // extension id -> fields assigned (last selector component)
-	caseNames map[int64]string
+	loops       [][]string // normalised effects of the loops of the fixed part
+	caseEffects map[int64][]string
+	prefix      []readOp           // reads before the extension switch
+	cases       map[int64][]readOp // extension id -> reads
+	fields      map[int64][]string // extension id -> fields assigned (last selector component)
+	caseNames   map[int64]string
 }
 
 // extractHelloParser finds, in fn, the switch over the extension id and collects the read sequences.
@@ -278,6 +280,10 @@ func extractHelloParser(fn *ast.FuncDecl, constVal func(e ast.Expr) (int64, bool
 			hp.caseNames[v] = exprName(lbl)
 			body := &ast.BlockStmt{List: cc.Body}
 			hp.cases[v] = readSeq(body)
+			if hp.caseEffects == nil {
+				hp.caseEffects = map[int64][]string{}
+			}
+			hp.caseEffects[v] = loopEffects(body, constVal)
 			// assigned fields
 			ast.Inspect(body, func(n ast.Node) bool {
 				switch x := n.(type) {
@@ -544,6 +550,34 @@ func c07R34(c *Ctx, r *Report) {
 			a, b := strings.Join(repo.loops[i], " ; "), strings.Join(std.loops[i], " ; ")
 			r.check(a == b, "C07.R7", fnName, fmt.Sprintf("fixed-part loop %d", i+1), pos, a, fmt.Sprintf("the loop collects values differently from crypto/tls, so ClientHelloInfo differs from what Go's TLS server reports:\n  repo:       %s\n  crypto/tls: %s", a, b))
 		}
+	}
+	r.rule("C07.R8", "value-flow agreement per extension: every extension case handled by both parsers has the same ordered effects as crypto/tls (reads, emptiness/length tests, constants, loops, field assignments and appends with field names abstracted per case, continue/break/return)", 12)
+	alpha := func(eff []string) string {
+		names := map[string]string{}
+		re := regexp.MustCompile(`\.[a-z0-9_]+`)
+		out := re.ReplaceAllStringFunc(strings.Join(eff, " ; "), func(m string) string {
+			if _, ok := names[m]; !ok {
+				names[m] = fmt.Sprintf(".f%d", len(names))
+			}
+			return names[m]
+		})
+		return out
+	}
+	var effIDs []int64
+	for id := range repo.caseEffects {
+		if _, both := std.caseEffects[id]; both {
+			effIDs = append(effIDs, id)
+		}
+	}
+	sort.Slice(effIDs, func(a, b int) bool { return effIDs[a] < effIDs[b] })
+	for _, id := range effIDs {
+		a, b := alpha(repo.caseEffects[id]), alpha(std.caseEffects[id])
+		k := fmt.Sprintf("extension %d (%s) effects", id, repo.caseNames[id])
+		r.check(a == b, "C07.R8", fnName, k, pos, a, fmt.Sprintf("%s differ from crypto/tls: values are collected or rejected differently, so ClientHelloInfo (and with it the sni/alpn/version sub-matchers and placeholders) differs from what Go's TLS server sees:\n  repo:       %s\n  crypto/tls: %s", k, a, b))
+	}
+	if os.Getenv("L4DEBUG") == "c07" {
+		fmt.Println("REPO:", strings.Join(loopEffects(repoFn.Body, func(e ast.Expr) (int64, bool) { return 0, false }), " ; "))
+		fmt.Println("STD: ", strings.Join(loopEffects(stdUnmarshal.Body, func(e ast.Expr) (int64, bool) { return 0, false }), " ; "))
 	}
 	r.check(seqString(repo.prefix) == seqString(std.prefix), "C07.R3", fnName, "fixed part", pos, seqString(repo.prefix), fmt.Sprintf("the fixed part of the hello is framed differently from crypto/tls:\n  repo:       %s\n  crypto/tls: %s", seqString(repo.prefix), seqString(std.prefix)))
 	var ids []int64
